@@ -59,8 +59,14 @@ def run_case(case):
         m = MemoryMap(addr_width=aw, data_width=dw, alignment=al)
         st["depth"] = max(st["depth"], lvl)
         desc = {"aw": aw, "dw": dw, "al": al, "items": []}
-        n_items = rng.randint(1, 5)
+        n_items = rng.randint(1, 5) if rng.random() < 0.9 else rng.randint(17, 40)
         for _ in range(n_items):
+            if rng.random() < 0.3:
+                list(m.all_resources()), list(m.window_patterns()), m.decode_address(rng.randrange(1 << aw))
+                try:
+                    m.find_resource(all_res[-1]) if all_res else None
+                except KeyError:
+                    pass
             kind = "res" if (leaf_only or depth <= 1 or aw < 2 or rng.random() < 0.45) else "win"
             if rng.random() < 0.25:
                 try:
